@@ -45,6 +45,11 @@ func lexCampaign(c *Ctx, prop string) error {
 		g := gram.GenLexGrammar(c.Rng, lexOpts())
 		jobs = append(jobs, &GenJob{Name: fmt.Sprintf("g%04d", i), G: g})
 	}
+	// bracket nesting far beyond what the random generator produces (and beyond the initial
+	// capacity of the front end's parse stack)
+	for k, d := range []int{12, 33, 70, 120}[:c.Pick(2, 4)] {
+		jobs = append(jobs, &GenJob{Name: fmt.Sprintf("n%04d", k), G: gram.NestedLexGrammar(c.Rng, d+c.Rng.Intn(5))})
+	}
 	jobs = append(jobs, corpusLexJobs(c, len(jobs))...)
 	inputsRng := rand.New(rand.NewSource(c.Seed*7919 + 17))
 	return runLexJobs(c, prop, jobs, func(j *GenJob) [][]byte { return gram.GenLexInputs(inputsRng, j.G, nInputs) })
@@ -70,6 +75,7 @@ func runLexJobs(c *Ctx, prop string, jobs []*GenJob, inputsFor func(j *GenJob) [
 	}
 	var cases []*DCase
 	var refs []lexCaseRef
+	nViaFile := 0
 	for _, j := range jobs {
 		if j.Dropped != "" {
 			if j.Res.Exit == 0 {
@@ -86,7 +92,12 @@ func runLexJobs(c *Ctx, prop string, jobs []*GenJob, inputsFor func(j *GenJob) [
 			continue
 		}
 		for _, in := range inputsFor(j) {
-			cases = append(cases, &DCase{G: j.Name, Op: "lex", Src: in})
+			// every fifth input reaches the lexer through a file and NewLexerFile
+			viaFile := len(cases)%5 == 4 && nViaFile < 6000
+			if viaFile {
+				nViaFile++
+			}
+			cases = append(cases, &DCase{G: j.Name, Op: "lex", Src: in, ViaFile: viaFile})
 			refs = append(refs, lexCaseRef{j, m, in})
 		}
 	}
@@ -143,6 +154,7 @@ func runLexJobs(c *Ctx, prop string, jobs []*GenJob, inputsFor func(j *GenJob) [
 		pairs += len(m.StatePairs)
 	}
 	c.Set("grammars_scanned", len(usedModels))
+	c.Set("inputs_read_through_NewLexerFile", nViaFile)
 	c.Set("model_position_sets_reached", dfaStates)
 	c.Set("model_state_rune_pairs_exercised", pairs)
 	for k, v := range kinds {
